@@ -37,6 +37,7 @@ func (s *sweeper) walk(v reflect.Value, depth int) {
 		return
 	}
 	s.attempt(v)
+	s.readers(v)
 	switch k {
 	case kMsg:
 		for _, g := range planOf(t).getters {
@@ -198,6 +199,64 @@ func (s *sweeper) attempt(v reflect.Value) {
 			s.try(t, n+"#"+strconv.Itoa(ci), func() { v.Method(idx).Call(args) })
 		}
 	}
+}
+
+// readers: "all readers keep working" on a read-only payload.  Every method that is not a mutator and whose arguments can be
+// synthesised without an index (Len, Get, Range, All, AsRaw, AsString, Equal, Type, the scalar getters, CopyTo INTO a fresh
+// value ...) is called on every value reachable from the read-only payload; iterators it returns are entered.  None may panic.
+func (s *sweeper) readers(v reflect.Value) {
+	t := v.Type()
+	for i := 0; i < t.NumMethod(); i++ {
+		m := t.Method(i)
+		n := m.Name
+		if (isMutatorName(n) && n != "CopyTo") || strings.HasPrefix(n, "Mark") || n == "At" {
+			continue
+		}
+		var args []reflect.Value
+		ok := true
+		for j := 1; j < m.Type.NumIn(); j++ {
+			pt := m.Type.In(j)
+			if m.Type.IsVariadic() && j == m.Type.NumIn()-1 {
+				continue
+			}
+			if pt.Kind() == reflect.Int {
+				ok = false
+				break
+			}
+			c := synth(pt)
+			if len(c) == 0 {
+				ok = false
+				break
+			}
+			args = append(args, c[0])
+		}
+		if !ok {
+			continue
+		}
+		var rec any
+		func() {
+			defer func() { rec = recover() }()
+			outs := v.Method(i).Call(args)
+			for _, o := range outs {
+				if o.Kind() == reflect.Func && !o.IsNil() && o.Type().NumIn() == 1 && o.Type().In(0).Kind() == reflect.Func {
+					o.Call(synth(o.Type().In(0))) // an iterator (All): enter it
+				}
+			}
+		}()
+		if rec != nil {
+			s.failures = append(s.failures, shortName(t)+"."+n+" (a reader) panicked on a read-only value: "+strings.SplitN(fmtAny(rec), "\n", 2)[0])
+		}
+	}
+}
+
+func fmtAny(x any) string {
+	if e, ok := x.(error); ok {
+		return e.Error()
+	}
+	if s, ok := x.(string); ok {
+		return s
+	}
+	return "panic"
 }
 
 func (s *sweeper) try(t reflect.Type, what string, f func()) {
